@@ -65,6 +65,11 @@ class Collector:
         self.nontrivial.update(keys)
 
 
+def _snippet(case):
+    from . import snippet          # lazy: snippet imports e1, which imports this module
+    return snippet.for_case(case)
+
+
 def digest(obj):
     return hashlib.blake2b(repr(obj).encode(), digest_size=16).digest()
 
@@ -127,7 +132,8 @@ def finish(col, replay_fn=None):
                        'instances_this_run': len(vs), 'tier': col.tier, 'seed': col.seed,
                        'config_overrides': json.loads(os.environ.get('PMC_CONFIG_OVERRIDES') or 'null'),
                        'tree': env.tree_identity(),
-                       'how_to_replay': f"cd /verif && ./vcheck --replay {path}"}, f, indent=1)
+                       'how_to_replay': f"cd /verif && ./vcheck --replay {path}",
+                       'python_snippet': _snippet(rep['case'])}, f, indent=1)
         print(f"VIOLATION property={pid} replay={path}")
         print(f"  signature: {sig}")
         print(f"  what: {rep['message']}")
